@@ -163,6 +163,10 @@ func (d *devSim) fault(echoLine, normal string, promptAfter string) bool {
 		return false
 	case "silence":
 		d.silent = true
+	case "rejected":
+		// the configuration retrieval is answered in full, prompt and all, but with a configuration
+		// the parser of the code under test rejects
+		d.emit(echoLine + normal + rejectedConfig(d.cfg.Backend, len(d.cfg.Config)+len(d.cfg.Table)) + prompt)
 	case "question":
 		// An interactive question instead of the prompt.  None of the texts matches a pattern the
 		// code under test waits for (no `#`, `>`, `password:`, `(yes/no`, no `?` at the end), so
@@ -212,6 +216,31 @@ func (d *devSim) fault(echoLine, normal string, promptAfter string) bool {
 		return false
 	}
 	return true
+}
+
+// rejectedConfig: lines that make the device parsers of the code under test give up (each variant
+// checked against the real parser: `drc FILE1 FILE2` answers "While reading file …: … references
+// unknown …" / "Bad indentation in subcommands" / the run aborts with "Unexpected route").
+func rejectedConfig(backend string, variant int) string {
+	var l []string
+	switch backend {
+	case "IOS":
+		l = []string{
+			"interface Ethernet9\n crypto map missing-map\n",                                  // dangling reference
+			"ip access-list extended garbled\n  permit ip any any\n deny ip any any\n",        // sub-commands with shrinking indentation
+			"interface Ethernet9\n ip address 10.9.9.1 255.255.255.0\n crypto map gone-map\n", // dangling reference, more context
+		}
+	case "ASA":
+		l = []string{
+			"access-group missing_acl in interface inside\n",                                 // dangling reference
+			"tunnel-group-map missing-map 10 some-group\n",                                   // dangling certificate map
+			"object-group network garbled\n  description x\n network-object host 10.1.1.2\n", // bad indentation
+			"crypto map missing 10 match address missing_acl\n",
+		}
+	default: // Linux: a route the parser does not understand
+		l = []string{"10.99.0.0/16 dev eth7 weird\n", "unreachable 10.98.0.0/16\n"}
+	}
+	return l[variant%len(l)]
 }
 
 // sendWithReads prints text; at each <!> it reads a line and echoes it (as the perl simulator does).
